@@ -483,6 +483,23 @@ CLAIMS["C44"] = (
     "character data of MathML are only checked lexically",
     "TLA+ pushdown automata for well-formedness + TLC trace validation")
 
+CLAIMS["C41"] = (
+    "model_checking",
+    "TLC model-checks the thread-safe design (module Conc: the reference count, the lazily cached hash and the Dummy "
+    "counter shared by 3 threads x 2 rounds, every interleaving; with the plain read-modify-write of the single-"
+    "threaded build TLC must refute CountsRestored, NeverFreedWhileShared and DummiesDistinct, on every run); TLC "
+    "generates 24 (thorough: 120) programs of 8 operations (hash, print, compare, add, mul, pow, sub, diff, subs, "
+    "expand, free symbols, numeric evaluation, argument access) over 10 shared expressions; in a build configured "
+    "WITH_SYMENGINE_THREAD_SAFE 4 or 8 threads, released together and starting at staggered positions, run each "
+    "program 1500 (20000) times on the same objects; TLC validates the quiescent observations the model's "
+    "invariants predict: every thread obtained the results of a sequential run in every repetition, the reference "
+    "counts of the shared objects are restored, the Dummy indices drawn concurrently are pairwise distinct and "
+    "complete, no object survives; the same programs run in a ThreadSanitizer build (halt on the first report)",
+    "6/C41", TRUSTED + "; the scheduler explores a sample of the interleavings only (the exhaustive exploration is "
+    "that of the model; the binding to the code is statistical plus ThreadSanitizer's happens-before analysis of the "
+    "executions that occurred); no scheduling-perturbation hook was added",
+    "TLA+ concurrency model (exhaustive) + stress replay on the thread-safe build + ThreadSanitizer + TLC trace validation")
+
 CLAIMS["C42"] = (
     "model_checking",
     "(1) TLC enumerates 15 atoms (incl. the rational 1/0, infinities, nan), every one- and two-argument C API function "
